@@ -330,11 +330,23 @@ def sync_run(case):
     def as_outcome(o):
         return o if o[0] == "ok" else ("err", "X") if o[1] == "X" else ("err", UserErr(int(o[1][1:])))
 
+    coro = case["variant"] == "coro"
+
     def outcome(d):
+        """what an await / yield of the fired Deferred d gives.  Generator: a Deferred that has been yielded once holds
+        None afterwards.  Coroutine: `await d` returns / raises d's outcome EVERY time; d holds None only once the
+        driver's callback on it has returned, i.e. after the function, having been suspended on d and resumed by it, has
+        suspended again or finished."""
         if d in taken:
             return ("ok", None)
-        taken.add(d)
+        if not coro:
+            taken.add(d)
         return as_outcome(delivered[d][1] if d in cancelled else delivered[d][0])
+
+    def resumed_by(d):
+        resume(outcome(d))
+        if coro:
+            taken.add(d)
 
     def resume(o):
         from twisted.internet import defer
@@ -383,7 +395,7 @@ def sync_run(case):
             fired.add(d)
             held.discard(d)
             if st["on"] == d:
-                resume(outcome(d))
+                resumed_by(d)
 
     def hold(d):
         if d < n and d not in fired and d not in held:
@@ -407,7 +419,7 @@ def sync_run(case):
             log.append(f"c{d}")
             fired.add(d)
             cancelled.add(d)
-            resume(outcome(d))
+            resumed_by(d)
     snap = list(log)
     if st["res"] is None:
         for g in reversed(frames):
@@ -441,11 +453,9 @@ def oracle(case, obs):
 
 # ---------------------------------------------------------------------------------------------
 def _rand_stmt(rng, depth, nd, fresh=None):
-    """fresh: a list used as a counter of Deferreds when every await must use a new one (coroutine variant)"""
+    """fresh: not None for the coroutine variant (no plain `yield`, no returnValue); Deferreds are SHARED in both
+    variants: the same Deferred may be awaited at several program points and by several (nested) functions"""
     def aw():
-        if fresh is not None:
-            fresh.append(1)
-            return ["await", len(fresh) - 1]
         return ["await", rng.randrange(nd)]
     r = rng.random()
     if depth <= 0 or r < 0.3:
@@ -473,8 +483,6 @@ def _rand_stmt(rng, depth, nd, fresh=None):
         return ["finally", _rand_stmt(rng, depth - 1, nd, fresh), _rand_stmt(rng, depth - 1, nd, fresh)]
     if r < 0.93:
         return ["call", _rand_stmt(rng, depth - 1, nd, fresh)]
-    if fresh is not None:
-        return ["loop", rng.randrange(0, 3), ["mark", rng.randrange(10)]]
     return ["loop", rng.randrange(0, 4), _rand_stmt(rng, depth - 1, nd, fresh)]
 
 
@@ -541,6 +549,10 @@ def gen(rng, tier):
         ["seq", ["try", ["call", ["seq", ["await", 0], ["seq", ["cancelup", 0], ["raise", 9]]]], ["mark", 1]],
          ["seq", ["await", 1], ["seq", ["cancelup", 0], ["return", 3]]]],
         ["call", ["call", ["seq", ["await", 0], ["seq", ["cancelup", 2], ["seq", ["await", 1], ["cancelup", 1]]]]]],
+        # shared awaitables: the same Deferred awaited several times / by several functions
+        ["seq", ["loop", 3, ["try", ["await", 0], ["mark", 1]]], ["await", 1]],
+        ["seq", ["try", ["call", ["await", 0]], ["mark", 1]], ["seq", ["try", ["call", ["await", 0]], ["mark", 2]], ["await", 0]]],
+        ["seq", ["await", 0], ["seq", ["await", 0], ["seq", ["await", 1], ["try", ["await", 0], ["await", 1]]]]],
     ]
     for body in small:
         ds = sorted(set(_awaits(body)))
@@ -554,8 +566,9 @@ def gen(rng, tier):
                         for sched in scheds:
                             if rng.random() > (0.15 if tier == "quick" else 0.6):
                                 continue
+                            coro_ok = not any(t in str(body) for t in ("'yield'", "'returnvalue'"))
                             cases.append(_with_holds(rng, {
-                                "variant": "gen", "body": body,
+                                "variant": "coro" if coro_ok and rng.random() < 0.4 else "gen", "body": body,
                                 "outs": [["ok", 10 + d] if outs[d] else _fail_out(rng, d) for d in range(len(ds))],
                                 "cancs": [_rand_canc(rng) for _ in ds],
                                 "dsub": [rng.random() < 0.3 for _ in ds],
@@ -565,8 +578,6 @@ def gen(rng, tier):
         nd = rng.randrange(1, 11)
         fresh = [] if variant == "coro" else None
         body = _rand_stmt(rng, rng.randrange(1, 5), nd, fresh)
-        if fresh is not None:
-            nd = max(1, len(fresh))
         outs = [["ok", 10 + d] if rng.random() < 0.65 else _fail_out(rng, d) for d in range(nd)]
         order = list(range(nd))
         rng.shuffle(order)
@@ -585,6 +596,21 @@ def gen(rng, tier):
 
 def corpus():
     return [
+        # shared awaitables: a Deferred that had already failed awaited more than once (retry loop; two nested functions
+        # sharing it), a pre-fired success awaited twice, a Deferred re-awaited after the function suspended again
+        {"variant": "coro", "body": ["loop", 3, ["try", ["await", 0], ["mark", 1]]], "outs": [["err", 4]],
+         "cancs": [["nothing"]], "chains": ["none"], "dsub": [False], "pre": [0], "sched": []},
+        {"variant": "coro", "body": ["seq", ["try", ["call", ["await", 0]], ["mark", 1]],
+                                     ["seq", ["try", ["call", ["await", 0]], ["mark", 2]], ["return", 3]]],
+         "outs": [["errsub", 4]], "cancs": [["nothing"]], "chains": ["none"], "dsub": [True], "pre": [0], "sched": []},
+        {"variant": "gen", "body": ["loop", 2, ["try", ["await", 0], ["mark", 1]]], "outs": [["err", 4]],
+         "cancs": [["nothing"]], "chains": ["none"], "dsub": [False], "pre": [0], "sched": []},
+        {"variant": "coro", "body": ["seq", ["await", 0], ["seq", ["await", 0], ["seq", ["await", 1], ["await", 0]]]],
+         "outs": [["ok", 10], ["ok", 11]], "cancs": [["nothing"], ["nothing"]], "chains": ["plus", "none"],
+         "dsub": [False, False], "pre": [], "sched": [["fire", 0], ["fire", 1]]},
+        {"variant": "coro", "body": ["seq", ["await", 0], ["seq", ["await", 1], ["await", 0]]],
+         "outs": [["ok", 10], ["ok", 11]], "cancs": [["nothing"], ["nothing"]], "chains": ["none", "none"],
+         "dsub": [False, False], "pre": [1], "sched": [["fire", 0]]},
         # cancel while RUNNING: the inner coroutine / generator, just resumed, cancels the outer Deferred and finishes
         {"variant": "coro", "body": ["try", ["seq", ["call", ["seq", ["await", 0], ["seq", ["cancelup", 1], ["raise", 21]]]],
                                                 ["mark", 1]], ["await", 1]],
@@ -683,7 +709,8 @@ def to_coq(case):
             sched.append(f"SFire {o[1]}")
         else:
             hold_to(o[1], False)
-    return (f"({_stmt_coq(case['body'])}, {ds}, {coq_list(map(str, pre), 'nat')}, {coq_list(map(str, hold0), 'nat')}, "
+    return (f"({'true' if case['variant'] == 'coro' else 'false'}, {_stmt_coq(case['body'])}, {ds}, "
+            f"{coq_list(map(str, pre), 'nat')}, {coq_list(map(str, hold0), 'nat')}, "
             f"{coq_list(sched, 'sop')})")
 
 
@@ -724,7 +751,7 @@ SPEC = Spec(
          "thorough 60%); 350 (quick) / 4000 (thorough) random "
          "structured programs of depth <= 4 (await, plain yield, mark, raise, return, returnValue, seq, try/except, "
          "try/finally, loops, nested calls, cancel of an enclosing call's Deferred from inside the running function) over up to 10 Deferreds, 60% as @inlineCallbacks generators, 40% as coroutines under ensureDeferred "
-         "(each Deferred awaited once), random pre-fired subset and arrival order, 60% with 1-3 cancellations at random "
+         "(Deferreds are shared in both variants: awaited at several points and by several nested functions), random pre-fired subset and arrival order, 60% with 1-3 cancellations at random "
          "positions; non-trivial = at least two awaits and "
          "the function ran to completion; distinct by (case, observation)",
     trusted=["hand-written model coq/C05/Model.v (driver loop transcription; tied by this correspondence run only)",
@@ -732,6 +759,9 @@ SPEC = Spec(
              "Model.denote (PEP 342/492); exercised by the correspondence run, not proved",
              "the harness prints the case's program as Python source and exec()s it"],
     assumptions=["Deferred callbacks run synchronously in order (C01); a Deferred awaited once holds None afterwards",
+                 "a Deferred a coroutine was suspended on holds None once the coroutine has suspended again or finished "
+                 "(the driver's callback returned): re-awaiting it then gives None — modelled and in the oracle's reference, "
+                 "flagged by the model's ghost `stale`; it is the one case the theorem for coroutines excludes",
                  "the chain returned Deferred -> fresh status.deferred created by each cancellation is abstracted to "
                  "'the result' in the model; the correspondence run observes the real chain through the user's callback"],
 )
